@@ -103,6 +103,25 @@ func Check(v any) error {
 		}
 	}
 
+	// Check names
+	for i := 0; i < value.NumField(); i++ {
+		sf := value.Type().Field(i)
+		apiTag := sf.Tag.Get("api")
+
+		if apiTag != "attr" && strings.Split(apiTag, ",")[0] != "rel" {
+			continue
+		}
+
+		// The name of a field is its json tag.
+		if sf.Tag.Get("json") == "" {
+			return fmt.Errorf(
+				"jsonapi: field %q of type %q has no name (json tag)",
+				sf.Name,
+				resType,
+			)
+		}
+	}
+
 	return nil
 }
 
